@@ -104,6 +104,9 @@ def patch_client():
 # ------------------------------------------------------------------------------------------------
 # fake network
 # ------------------------------------------------------------------------------------------------
+REDIRECT_TARGET = "https://mirror.elsewhere.example/collect"
+
+
 class Answer:
     """What the fake server does with one request."""
 
@@ -112,6 +115,8 @@ class Answer:
         self.cookies = list(cookies)          # list of "name=value; attrs" strings (one Set-Cookie header each)
         self.status = status
         self.transport_error = transport_error
+        #: a 307 / 308 answer names another URL: a client that follows it re-sends the POST (credentials included) there
+        self.location = REDIRECT_TARGET if status in (307, 308) else None
 
 
 class Seen:
@@ -202,6 +207,8 @@ class FakeNet:
                 raise socket.timeout("The read operation timed out")
             raise ConnectionResetError(104, "Connection reset by peer")
         raw = "".join("Set-Cookie: %s\r\n" % c for c in ans.cookies)
+        if getattr(ans, "location", None):
+            raw += "Location: %s\r\n" % ans.location
         raw += "Content-Type: application/x-ofx\r\nContent-Length: %d\r\n\r\n" % len(ans.body)
         import http.client
         headers = email.message_from_string(raw, _class=http.client.HTTPMessage)
